@@ -80,7 +80,37 @@ def construct_once(P, raw_items, raw_none, sub):
     ri = p.raw_inputs
     r['raw_ok'] = (ri is None and inputs is None) or (ri is not None and inputs is not None and pg.is_frozen(ri)
                                                        and struct(dict(ri)) == before)
+    # ... and stay so LATER: what a step can reach through `self.inputs` below the declared (read-only) levels are plain
+    # dictionaries of the process's own; changing them in place changes neither the caller's dictionary nor raw_inputs
+    if inputs is not None:
+        declared = {tuple(q) for q in pg.declared_ns_paths(sub, tree)} | {()}
+        probed = list(_plain_dicts(tree, (), declared, inputs))
+        for d in probed:
+            d['__probe_step__'] = 0
+        if struct(inputs) != before:
+            r['caller_ok'] = False
+        if ri is not None and struct(dict(ri)) != before:
+            r['raw_ok'] = False
+        for d in probed:
+            del d['__probe_step__']
     return r
+
+
+def _plain_dicts(x, path, declared, given):
+    """the plain dictionaries of `inputs` that are the process's own: reached through declared namespace levels (rebuilt by the
+    library) and plain dicts (copied by the library).  Not what lies inside an immutable mapping the CALLER supplied (`given` = the
+    caller's value at the same path): such an object is handed on as it is, contents included."""
+    if not pg.is_mapping(x):
+        return
+    if given is not None and pg.is_mapping(given) and not isinstance(given, dict):
+        return
+    if isinstance(x, dict):
+        yield x
+    elif path not in declared:
+        return
+    for k, v in x.items():
+        g = given.get(k) if (given is not None and pg.is_mapping(given)) else None
+        yield from _plain_dicts(v, path + (k,), declared, g)
 
 
 def run_impl(case):
